@@ -1,0 +1,41 @@
+//go:build verif
+
+package art
+
+// VerifPoolAudit draws perClass objects from each node pool, counts those
+// that are not the zero value, and puts them all back. Diagnostic only.
+func VerifPoolAudit(perClass int) (nonZero [4]int) {
+	var n4s []*node4
+	var n16s []*node16
+	var n48s []*node48
+	var n256s []*node256
+	for i := 0; i < perClass; i++ {
+		a := nodePools[nodeKind4].Get().(*node4)
+		if *a != (node4{}) {
+			nonZero[0]++
+		}
+		n4s = append(n4s, a)
+		b := nodePools[nodeKind16].Get().(*node16)
+		if *b != (node16{}) {
+			nonZero[1]++
+		}
+		n16s = append(n16s, b)
+		c := nodePools[nodeKind48].Get().(*node48)
+		if *c != (node48{}) {
+			nonZero[2]++
+		}
+		n48s = append(n48s, c)
+		d := nodePools[nodeKind256].Get().(*node256)
+		if *d != (node256{}) {
+			nonZero[3]++
+		}
+		n256s = append(n256s, d)
+	}
+	for i := range n4s {
+		nodePools[nodeKind4].Put(n4s[i])
+		nodePools[nodeKind16].Put(n16s[i])
+		nodePools[nodeKind48].Put(n48s[i])
+		nodePools[nodeKind256].Put(n256s[i])
+	}
+	return
+}
